@@ -311,14 +311,31 @@ def check_property(prop, modname, tier='quick', native=None, workers=None, extra
     for u in units:
         r = results[u.name]
         if r['error']:
+            changed = []
             if r['error'].startswith('CRASH'):
+                # a harness that trips over a function which is no longer the one it was written for is UNDECIDED, not a
+                # checker problem: only a crash on unchanged functions (hashes recorded with the baseline) is the checker's fault
+                old = (baseline or {}).get('unit_function_hashes', {})
+                for q in u.functions:
+                    try:
+                        if q in old and function_hash(repo, q) != old[q]:
+                            changed.append(q)
+                    except Exception:
+                        changed.append(q)
+            if r['error'].startswith('CRASH') and changed:
+                undecided.append((u.name, 'harness does not fit the changed function(s) %s: %s'
+                                  % (', '.join(changed), r['error'].split('\n')[0][:200])))
+            elif r['error'].startswith('CRASH'):
                 crashes.append((u.name, r['error']))
             else:
                 undecided.append((u.name, r['error']))
         names = r['obligations']
         for name, a in sorted(names.items()):
             if a['cover']:
-                if a['failed'] or a['unknown']:
+                # vacuity guard: at least one path that reaches the cover must be satisfiable.  Single instances may be
+                # infeasible combinations of decisions that only the solver can refute (e.g. "the last tag is explicit" and,
+                # later, "no explicit tag was seen"): they prove their obligations trivially and are harmless
+                if a['instances'] - a['failed'] - a['unknown'] <= 0:
                     crashes.append((u.name, 'vacuity: cover %s unreachable' % name))
                 continue
             n_ob += 1
@@ -509,7 +526,8 @@ def check_property(prop, modname, tier='quick', native=None, workers=None, extra
         os.makedirs(os.path.join(VERIF, 'baseline'), exist_ok=True)
         with open(baseline_path, 'w') as f:
             json.dump({'property': prop, 'obligations': sorted(o['name'] for o in ob_list if o['discharged']),
-                       'canary_function_hashes': {c.qual: function_hash(repo, c.qual) for u in units for c in u.canaries}},
+                       'canary_function_hashes': {c.qual: function_hash(repo, c.qual) for u in units for c in u.canaries},
+                       'unit_function_hashes': {q: function_hash(repo, q) for u in units for q in u.functions}},
                       f, indent=1)
         print('baseline written: %s' % baseline_path)
     return exit_code
